@@ -22,6 +22,8 @@ pub struct Run {
     pub oracle_checks: u64,
     pub notes: Vec<String>,
     pub descs: Vec<String>,
+    /// failures recorded so far per class (the cap of `fail` is per class)
+    pub fail_counts: BTreeMap<String, usize>,
 }
 
 impl Run {
@@ -37,6 +39,7 @@ impl Run {
             oracle_checks: 0,
             notes: Vec::new(),
             descs: Vec::new(),
+            fail_counts: BTreeMap::new(),
         }
     }
 
@@ -62,8 +65,13 @@ impl Run {
         *self.hist.entry(key.to_owned()).or_insert(0) += 1;
     }
 
+    /// The number of recorded failures is capped PER CLASS (400 each), not in total: a frequent class — thousands of inputs of
+    /// an open known finding in the thorough tier — must not crowd out a later failure of another class (with the former global
+    /// cap of 2000 the failures of every stream after the first 2000 known ones, and of the witnesses, were silently dropped).
     pub fn fail(&mut self, case: String, class: &str, what: String) {
-        if self.failures.len() < 2000 {
+        let n = self.fail_counts.entry(class.to_owned()).or_insert(0);
+        if *n < 400 {
+            *n += 1;
             self.failures.push(Failure { case, class: class.to_owned(), what });
         }
     }
